@@ -51,9 +51,9 @@ package resolver
 //@   ensures [iff] result <==> (!isStr(i) && types.IsPrimitive(i))
 //@ func (NonStringPrimitiveResolver).ResolveArg
 //@   property C02 C06 C07 C03 C04 C05 C11 C12 C14 C15 C16
-//@   ensures [raw_kept_no_deps] result.1 == nil && e.Raw == i && len(e.DependsOnParams) == 0 && len(e.DependsOnServices) == 0 && len(e.DependsOnTags) == 0
+//@   ensures [raw_kept_no_deps] (isNilAny(i) || isBool(i) || isInt(i) || isPrimKind(i)) ==> result.1 == nil && e.Raw == i && len(e.DependsOnParams) == 0 && len(e.DependsOnServices) == 0 && len(e.DependsOnTags) == 0
 // the value is injected as the literal the helpers' exporter prints for it (which carries the type: `float64(2)`, not `2`)
-//@   ensures [code_is_the_exported_literal] e.Code == "dependencyValue(" + exported(i) + ")"
+//@   ensures [code_is_the_exported_literal] (isNilAny(i) || isBool(i) || isInt(i) || isPrimKind(i)) ==> e.Code == "dependencyValue(" + exported(i) + ")"
 
 // "$gontainer" (fixed id): the container itself; no dependencies
 //@ func (FixedValueResolver).Supports
